@@ -225,6 +225,27 @@ class Prov:
             return uniq[0]
         return ("phi", tuple(uniq))
 
+    def root_local(self, op):
+        """Follow single-definition temporaries that are plain copies/moves back to the local they copy."""
+        if op.get("k") not in ("copy", "move") or op["p"].get("p"):
+            return None
+        l = op["p"]["l"]
+        for _ in range(8):
+            ds = self.defs.get((l, None), [])
+            if len(ds) != 1:
+                return l
+            bb, idx = ds[0]
+            b = self.cfg.block(bb)
+            if idx >= len(b["stmts"]):
+                return l
+            s = b["stmts"][idx]
+            rv = s.get("rv", {})
+            if s["k"] == "assign" and rv.get("k") == "use" and rv["a"].get("k") in ("copy", "move") and not rv["a"]["p"].get("p"):
+                l = rv["a"]["p"]["l"]
+                continue
+            return l
+        return l
+
     def expand(self, var):
         """One-level expansion of a ('var', l, name, defs) node: list of the defining expressions."""
         out = []
@@ -246,7 +267,7 @@ class Prov:
         t = b["term"]
         if t["k"] == "call":
             args = tuple(self.operand(a, d, depth + 1, seen) for a in t["args"])
-            return ("call", t.get("resolved") or t.get("callee") or "<indirect>", args, bb)
+            return ("call", call_name(t), args, bb)
         if t["k"] == "asm":
             return ("asm", bb)
         return ("unknown", "term:" + t["k"])
@@ -292,6 +313,19 @@ class Prov:
             return self.apply_proj(base, proj, at, depth, seen)
         base = ("place", l, self.names.get(l), self.local_ty.get(l))
         return self.apply_proj(base, proj, at, depth, seen)
+
+
+LOCAL_CRATES = ("tiny_std", "rusl", "tiny_start", "tiny_cli", "derive_test", "fixtures")
+
+
+def call_name(t):
+    """Name used for a call in expressions: the resolved impl when it is a local-crate function, else the declared callee
+    (so std trait calls keep their trait path, e.g. core::ops::try_trait::Try::branch)."""
+    r = t.get("resolved")
+    c = t.get("callee")
+    if r and (r.startswith(LOCAL_CRATES) or r.startswith(tuple("<" + x for x in LOCAL_CRATES))):
+        return r
+    return c or r or "<indirect>"
 
 
 # ----------------------------------------------------------------------
@@ -407,3 +441,13 @@ def walk_deep(e, prov, limit=400):
                     continue
                 seen.add(key)
                 stack.extend(prov.expand(y))
+            elif y[0] == "place":
+                # a mutably borrowed local (iterator state, out-parameter): flow-insensitively, everything ever assigned to it
+                key = ("place", y[1])
+                if key in seen:
+                    continue
+                seen.add(key)
+                for k2, ds in prov.defs.items():
+                    if k2[0] == y[1]:
+                        for d in ds:
+                            stack.append(prov.def_expr(d, k2, 0, frozenset()))
